@@ -7,11 +7,11 @@ mkdir -p /tmp/seedconf; git -C /repo worktree add -q --detach $W HEAD || exit 2
 export CARGO_TARGET_DIR=/tmp/seedconf/target CARGO_NET_OFFLINE=true
 cd $W
 [ -f $D/demo-cargo.diff ] && git apply $D/demo-cargo.diff
-cp $D/demo.rs sim/$CR/tests/seed_demo.rs
+mkdir -p sim/$CR/tests; cp $D/demo.rs sim/$CR/tests/seed_demo.rs
 R=""
 (cd sim && timeout 1800 cargo test -p $CR --offline --test seed_demo >/tmp/seedconf/$N.without.log 2>&1) && R="$R demo-passes-without=yes" || R="$R demo-passes-without=NO"
 git apply $D/patch.diff || R="$R APPLY-FAILED"
 (cd sim && timeout 1800 cargo test -p $CR --offline --test seed_demo >/tmp/seedconf/$N.with.log 2>&1) && R="$R demo-fails-with=NO" || R="$R demo-fails-with=yes"
-(cd sim && timeout 2400 cargo test -p $CR --offline --lib >/tmp/seedconf/$N.lib.log 2>&1) && R="$R lib-tests-pass-with=yes" || R="$R lib-tests-pass-with=NO"
+rm -f sim/$CR/tests/seed_demo.rs; (cd sim && timeout 3000 cargo nextest run --workspace --offline --no-fail-fast -j 4 --retries 3 >/tmp/seedconf/$N.lib.log 2>&1) && R="$R suite-passes-with=yes" || R="$R suite-passes-with=NO"
 echo "$N:$R"
 cd /; git -C /repo worktree remove --force $W
